@@ -66,19 +66,23 @@ OpExtendSequences(a, b, addnew) ==
 \* extend_matrix: append for shared taxa and add those only in other_matrix
 OpExtendMatrix(a, b) == OpExtendSequences(a, b, TRUE)
 
-\* remove_sequences(taxa): KeyError when a taxon has no sequence.  The reference removes
-\* in list order up to the first missing one (what is left after the error is not documented:
-\* the trace spec only requires that nothing but named rows disappeared).
+\* The taxa argument of remove / discard / keep is any iterable of Taxon objects: a SEQUENCE ts,
+\* possibly naming a taxon more than once.
+\* remove_sequences(taxa): KeyError when a taxon has no sequence at its turn (a missing taxon, or the
+\* second occurrence of a repeated one).  The reference removes in list order up to that point (what
+\* is left after the error is not documented: the trace spec only requires that nothing but named
+\* rows disappeared).
 RECURSIVE RemoveUpTo(_, _)
 RemoveUpTo(T, ts) == IF ts = <<>> \/ Head(ts) \notin T THEN T ELSE RemoveUpTo(T \ {Head(ts)}, Tail(ts))
+RemoveSucceeds(a, ts) == CmSeqToSet(ts) \subseteq Taxa(a) /\ Cardinality(CmSeqToSet(ts)) = Len(ts)
 OpRemoveSequences(a, ts) ==
-    IF CmSeqToSet(ts) \subseteq Taxa(a) /\ Cardinality(CmSeqToSet(ts)) = Len(ts)
+    IF RemoveSucceeds(a, ts)
       THEN Ok(WithRows(a, [t \in Taxa(a) \ CmSeqToSet(ts) |-> a.rows[t]]), <<>>)
       ELSE Refuse(WithRows(a, [t \in RemoveUpTo(Taxa(a), ts) |-> a.rows[t]]), "KeyError")
-\* discard_sequences(taxa): "if they exist"
-OpDiscardSequences(a, T) == Ok(WithRows(a, [t \in Taxa(a) \ T |-> a.rows[t]]), <<>>)
+\* discard_sequences(taxa): "if they exist" - absent and repeated taxa are tolerated
+OpDiscardSequences(a, ts) == Ok(WithRows(a, [t \in Taxa(a) \ CmSeqToSet(ts) |-> a.rows[t]]), <<>>)
 \* keep_sequences(taxa): "Discards all sequences not associated with any of the Taxon instances"
-OpKeepSequences(a, T) == Ok(WithRows(a, [t \in Taxa(a) \cap T |-> a.rows[t]]), <<>>)
+OpKeepSequences(a, ts) == Ok(WithRows(a, [t \in Taxa(a) \cap CmSeqToSet(ts) |-> a.rows[t]]), <<>>)
 
 \* new_sequence(taxon, values): taxon of the namespace without a sequence
 OpNewSequence(a, nsT, t, vals) ==
